@@ -199,6 +199,7 @@ func init() {
 	RegisterSeq("c02.names", &SeqSpec{Prop: "C02", DiskSize: 3000, Alphabet: nameAlphabet(), After: c02After})
 	RegisterSeq("c02.ns", &SeqSpec{Prop: "C02", DiskSize: 3000, Alphabet: nsAlphabet(), After: c02After})
 	RegisterSeq("c02.ns.xdr", &SeqSpec{Prop: "C02", DiskSize: 3000, Alphabet: nsAlphabet(), After: c02After, ViaXDR: true})
+	RegisterSeq("c02.ns.ic2", &SeqSpec{Prop: "C02", DiskSize: 3000, Alphabet: nsAlphabet(), After: c02After, ICacheSz: 2})
 	RegisterSeq("c02.ns.nounstable", &SeqSpec{Prop: "C02", DiskSize: 3000, Alphabet: nsAlphabet(), After: c02After, NoUnstable: true})
 	Checks["C02"] = C02
 }
@@ -216,5 +217,7 @@ func C02(r *report.Report, tier string) {
 	s5 := RunSeq(r, "c02.ns.xdr", depth-1)
 	s6 := RunSeq(r, "c02.longnames", depth-2)
 	s7 := RunSeq(r, "c02.bigdir", depth-2)
-	r.Extra["searches"] = []*SeqSummary{s1, s2, s3, s4, s5, s6, s7}
+	// an inode cache of two: nearly every request finds the inodes of the one before it evicted
+	s8 := RunSeq(r, "c02.ns.ic2", depth-1)
+	r.Extra["searches"] = []*SeqSummary{s1, s2, s3, s4, s5, s6, s7, s8}
 }
